@@ -6,6 +6,9 @@ ALL = ["C%02d" % i for i in range(1, 21)]
 
 # property -> (technique, decided clauses (short), not decided / assumptions)
 CLAIMED = {
+ "C15": ("field-based, context-insensitive value-flow (taint) analysis over go/ssa + VTA/CHA call edges: sources = every package-level *Status, sinks = status mutators",
+         "C15.1 no mutator (SetCode/SetMsg/SetCause/Clear/DecodeQuery/UnmarshalJSON/TagStack/store through pointer) in shipped code is applied to a value that may alias a predefined status; C15.2 the decode-into-message sites own their status (origin of every message handed to ReadMessage/Unpack; no SetStatus on pooled inputs; Status(true) allocates); C15.3 sentinels assigned only by their initialiser",
+         "user code and third-party plugins; statuses reaching user handlers by reference (documented as shared); aliasing is field-based (over-approximate): a report names the flow path"),
  "C08": ("ordering analysis of the close protocol: dominance chains, exactly-once release by path search, constant tables, loop-shape matching (go/ssa)",
          "C08.1 closeLocked: CAS -> delete -> notify -> wait handlers -> wait calls -> ActiveClosed -> socket.Close -> hook as one dominance chain; C08.2 handler wait-group Add before dispatch, exactly one release on the dispatched / Go()-failed paths, Push pairing, getContext/putContext count iff withWg; C08.3 goonRead = {Ok,ActiveClosing}, checkStatus membership, graceCtxWait; C08.4 peer.Close: listeners first, one counted async Close per session, exactly count results awaited",
          "'returns only after' as a timing statement; handlers entered after the wait returned (Add concurrent with Wait at zero is C14.5); the peer's behaviour"),
